@@ -72,7 +72,11 @@ def inline_all(ctx, only=None, exclude=()):
 
 def is_private_helper(callee):
     n = callee.name
-    return n.startswith("_") and not (n.startswith("__") and n.endswith("__"))
+    if n.startswith("_") and not (n.startswith("__") and n.endswith("__")):
+        return True
+    # a function of a private module of the package (`_util.py`): shared pieces of the methods that call it
+    return callee.cls is None and getattr(callee, "parent", None) is None and callee.module is not None and callee.module.name.startswith("_") \
+        and not callee.module.name.startswith("__")
 
 
 def same_class_helpers(cls):
@@ -118,7 +122,9 @@ def mk_interp(ctx, inline=None, auto_helpers=True, **kw):
         if callee.cls is not None:
             # the caller's own class, or a base class it inherits the helper from
             return callee.cls == caller.cls or (caller.cls is not None and callee.cls in ctx.repo.mro(caller.cls))
-        return callee.module is caller.module
+        # a private function of the caller's module, or of a private module of the package
+        return callee.module is caller.module or (callee.module is not None and callee.module.name.startswith("_") and not callee.module.name.startswith("__")) \
+            or callee.name.startswith("_")
     I = Interp(ctx.repo, ctx.types, ctx.eff, inline=pol, **kw)
     I._policy = pol
     return I
